@@ -609,4 +609,13 @@ def upsertTok (s : St) (id : Nat) (ti : TokInfo) : Option St :=
   let toks' := s.toks.filter (fun kv => kv.1 != id) ++ [(id, ti)]
   if (toks'.map (fun t => t.2.stakeCap)).sum ≤ Dec.one then some { s with toks := toks' } else none
 
+/-! ## layer2 `MsgMintBurnTx` applied to a pool's share tokens (x/layer2/keeper/msg_server.go) -/
+
+/-- the sender's coins go to the layer2 module account and are burnt there: the holder's balance and the bank supply of
+the share token fall, the pool record (`TotalShareTokens`) is not told -/
+def l2Burn (s : St) (a : Nat) (c : Coins) : Option St :=
+  match s.bank.burn (.user a) c with
+  | none => none
+  | some b => some { s with bank := b }
+
 end Sekai.MultiStake
